@@ -859,3 +859,71 @@ _view(ks.Key.__getitem__, ks.Key, 'get',
 _view(ks.Key.has_default_cert, ks.Key, 'has_default', 'Key.has_default_cert: whether a default certificate row of exactly this key exists')
 _view(ks.Key.default_cert, ks.Key, 'default',
       'Key.default_cert: the default certificate row of exactly this key (KeyError without one), returned as a Certificate of this key')
+
+
+# ----------------------------------------------------------------------------- iteration of the views
+def _iter_step(it, pre, env, g):
+    d = it.run.ghost['vi']
+    ys = d['yields']
+    rows = d['conn'].queries[0]['rows'] if d['conn'].queries else []
+    last = rows[-1] if rows else 'none'
+    if last is None:
+        return {'stops_at_the_first_missing_row_without_yielding': ys == []}
+    ok = len(ys) == 1 and isinstance(ys[0], NameVal) and last != 'none'
+    return {'one_name_per_row_decoded_from_its_first_column': ok and ys[0].base == ('decoded', last[0].label)}
+
+
+def _iter_havoc(it, env, g):
+    d = it.run.ghost['vi']
+    d['yields'].clear()
+    if d['conn'].queries:
+        d['conn'].queries[0]['rows'].clear()
+    return env['self']
+
+
+def _iter_inv(it, env, g):
+    d = it.run.ghost['vi']
+    return {'one_query_open': len(d['conn'].queries) == 1}
+
+
+def _view_iter(fn_, owner_cls, scoped, doc_):
+    class _C(Contract):
+        fn = fn_
+        props = ('C15',)
+        doc = doc_
+        raises = {}
+        loops = {1: LoopSpec(_iter_inv, havoc={'self': _iter_havoc}, step=_iter_step)}
+
+        def setup(self, cx):
+            run = cx.run
+            conn = QConn()
+            rid = Opaque('row_id', 'owner row id')
+            d = dict(conn=conn, rid=rid, yields=[])
+            run.ghost['vi'] = d
+            run.ghost['on_yield'] = lambda it_, v, node: d['yields'].append(v)
+            if owner_cls is ks.KeychainSqlite3:
+                return dict(self=SymObj(owner_cls, dict(conn=conn)))
+            return dict(self=SymObj(owner_cls, dict(pib=SymObj(ks.KeychainSqlite3, dict(conn=conn)), row_id=rid)))
+
+        def post(c, cx, result, self):
+            d = cx.run.ghost['vi']
+            qs = d['conn'].queries
+            out = {'exactly_one_query': len(qs) == 1}
+            if len(qs) == 1:
+                if scoped:
+                    out['query_is_scoped_to_the_owner'] = qs[0]['params'] == (d['rid'],)
+                else:
+                    out['lists_every_identity'] = qs[0]['params'] == ()
+                out['cursor_closed_after_the_last_row'] = qs[0].get('closed', 0) == 1
+            return out
+    _C.__name__ = f'iter_{owner_cls.__name__}'
+    return contract(_C)
+
+
+_view_iter(ks.Identity.__iter__, ks.Identity, True,
+           'Identity.__iter__: one query for the key names of exactly this identity; every row yields the name decoded from it, in '
+           'row order, until the rows run out; the cursor is closed')
+_view_iter(ks.Key.__iter__, ks.Key, True,
+           'Key.__iter__: one query for the certificate names of exactly this key; every row yields the decoded name; cursor closed')
+_view_iter(ks.KeychainSqlite3.__iter__, ks.KeychainSqlite3, False,
+           'KeychainSqlite3.__iter__: one query over all identities; every row yields the decoded identity name; cursor closed')
